@@ -1,26 +1,24 @@
 #!/bin/bash
-# confirm the not-yet-confirmed seeds, then evaluate every seed with the checks that should catch it
+# evaluate every seed with the checks that should catch it (quick tier)
 cd /verif
-for id in C03 C06 C08 C11 C12 C13 C14 C15 C16 C17 C18 C19 C20 C07; do
-  echo "confirm $id: $(tools/confirm_seed.sh $id 2>&1 | tail -1)"
-done
 ev() { tools/seed_eval.sh "$@"; }
+ev C01 C01 C02
+ev C02 C02 C04 C01
+ev C03 C03 C01
+ev C04 C10 C04
+ev C05 C05
+ev C06 C06
+ev C07 C07
+ev C08 C08
+ev C09 C09 C03 C01
+ev C10 C10
+ev C11 C11
+ev C12 C12 C15
+ev C13 C13
+ev C14 C14
+ev C15 C15
 ev C16 C16
 ev C17 C17
 ev C18 C18
 ev C19 C19
 ev C20 C20
-ev C11 C11
-ev C12 C12 C15
-ev C15 C15
-ev C08 C08
-ev C14 C14
-ev C13 C13
-ev C05 C05
-ev C03 C03
-ev C09 C09 C03
-ev C10 C10
-ev C04 C10 C04
-ev C02 C04 C02
-ev C01 C02 C01
-ev C06 C12
